@@ -7,6 +7,9 @@ mkdir -p .cache evidence replays
 echo "[setup] translator"
 (cd translate && go build -o ../.cache/translate.bin .) || exit 1
 ./.cache/translate.bin "${VERIF_REPO:-/repo}" lean/DymVerif/Gen || echo "[setup] translate reported problems (checks will report them)"
+echo "[setup] nondeterminism-site table (C12)"
+cp "${VERIF_REPO:-/repo}/go.sum" sites/go.sum 2>/dev/null
+(cd sites && go build -o ../.cache/sites.bin . && ../.cache/sites.bin "${VERIF_REPO:-/repo}" ../lean/DymVerif/Gen/MapSites.lean) || echo "[setup] site extraction reported problems (check C12 will report them)"
 echo "[setup] lean library"
 (cd lean && for t in $(python3 -c "
 import json
